@@ -37,6 +37,11 @@ class _ThreadingFacade(types.ModuleType):
   Event = prims.SimEvent
   RLock = prims.SimRLock
   Lock = prims.SimLock
+  current_thread = staticmethod(prims.sim_current_thread)
+  currentThread = staticmethod(prims.sim_current_thread)
+  get_ident = staticmethod(prims.sim_get_ident)
+  enumerate = staticmethod(prims.sim_enumerate)
+  active_count = staticmethod(prims.sim_active_count)
 
   def __getattr__(self, name):
     return getattr(_threading, name)
@@ -83,6 +88,14 @@ def _replacement_for(obj, modname):
     return prims.SimRLock
   if obj is _threading.Lock:
     return prims.SimLock
+  if obj is _threading.current_thread or obj is getattr(_threading, 'currentThread', None):
+    return prims.sim_current_thread
+  if obj is _threading.get_ident:
+    return prims.sim_get_ident
+  if obj is _threading.enumerate:
+    return prims.sim_enumerate
+  if obj is _threading.active_count:
+    return prims.sim_active_count
   if obj is _queue.Queue:
     return prims.SimQueue
   if obj is _queue.PriorityQueue:
